@@ -2,6 +2,7 @@
 package main
 
 import (
+	"sort"
 	"math"
 	"context"
 	"fmt"
@@ -150,7 +151,12 @@ func candidates(rs *gj5s.RuleSpec) []cand {
 		for _, v := range []int64{lo, hi, 5, 6, 100} {
 			vals[v] = true
 		}
+		var sorted []int64
 		for v := range vals {
+			sorted = append(sorted, v)
+		}
+		sort.Slice(sorted, func(i, j int) bool { return sorted[i] < sorted[j] }) // every worker must enumerate the same order
+		for _, v := range sorted {
 			if unsigned && v < 0 {
 				continue
 			}
